@@ -7,7 +7,7 @@ import random as _random
 from hypothesis import strategies as st
 
 from .. import molgen
-from ..core import hyp_run
+from ..core import hyp_run, direct_run
 
 ID = 'C17'
 RULE = ('generated molecules (corpus, curated, literals, constructive, symmetric; normal state) x drawn rebuild/renumbering x parameter '
@@ -15,7 +15,9 @@ RULE = ('generated molecules (corpus, curated, literals, constructive, symmetric
         'of the fragment dictionaries must be invariant; the linear hash set must equal the set computed by an independent '
         'simple-path enumerator with the documented multiplicity cap, the Morgan set the iterated neighbourhood identifiers of the '
         'requested radii; bits must follow (h >> k*log2 L) & (L-1) for k < active bits. non-trivial = molecule has a repeated '
-        'fragment or a ring; distinct by (canonical string, parameters)')
+        'fragment or a ring; distinct by (canonical string, parameters)'
+        '; also: Morgan environment strings against independently cut neighbourhoods.'
+        '; also: the curated witness list is swept completely on every run.')
 ASSUMPTIONS = ['hash composition hash((*labels, count_index)) and atom identifier hash((isotope or 0, Z, charge, radical)) are taken '
                'as the format definition (they are the published fingerprint format)',
                'fragment SMILES values of the dictionaries are compared as sets only where every atom of the molecule formats '
@@ -24,10 +26,14 @@ ASSUMPTIONS = ['hash composition hash((*labels, count_index)) and atom identifie
 
 def shards(tier, seed):
     n = 200 if tier == 'quick' else 4000
-    return [dict(shard=i, n=n) for i in range(12)]
+    return [dict(shard=i, n=n) for i in range(12)] + [dict(shard='curated')]
 
 
 def run_shard(shard, tier, seed):
+    if shard['shard'] == 'curated':
+        # the curated witnesses are swept completely on every run (drawn cases meet a given witness only now and then)
+        return direct_run(ID, [{'mol': {'k': 'smi', 's': s}, 'lo': 1 + i % 3, 'span': (i // 3) % 4, 'logL': 10 + i % 3, 'bits': 1 + i % 3,
+                                'pairs': i % 4, 'seed': seed * 7919 + i} for i, s in enumerate(molgen.curated())], check_case)
     strat = st.fixed_dictionaries({
         'mol': molgen.mol_specs(max_atoms=14, corpus_w=5, curated_w=3, graph_w=5, literal_w=1, sym_w=3),
         'lo': st.integers(1, 6), 'span': st.integers(0, 4), 'logL': st.integers(4, 12), 'bits': st.integers(1, 4),
